@@ -264,6 +264,7 @@ class ProbeKernel(TransitionMixin, TuningMixin):
 
 class ProbeKernelH(ProbeKernel):
     needs_history: ClassVar[bool] = True
+    error_book: ClassVar[dict[int, str]] = {0: "no errors", 1: "probe-H error one", 2: "probe-H error two", 7: "probe-H error seven"}
 
 
 # =====================================================================================
@@ -396,12 +397,20 @@ def make_model():
     return gs.DictInterface(lambda s: jnp.float32(0.0))
 
 
+def kernel_ids(spec):
+    """kernel identifiers: the builder's default kernel_00, kernel_01, ... unless the spec asks for user-chosen (non-alphabetical) ones"""
+    n = len(spec["kernels"])
+    if spec.get("ids"):
+        return list(spec["ids"])[:n]
+    return [f"kernel_{i:02d}" for i in range(n)]
+
+
 def make_kernels(spec, log, with_errs=False):
     kernels = []
     for i, kk in enumerate(spec["kernels"]):
         cls = ProbeKernelH if kk["hist"] else ProbeKernel
         tab = err_table(spec, kk) if with_errs and kk.get("errs") else None
-        kernels.append(cls(kk["keys"], kk["a"], kk["c"], all_keys=POOL, err_table=tab, log=log, ident=f"kernel_{i:02d}"))
+        kernels.append(cls(kk["keys"], kk["a"], kk["c"], all_keys=POOL, err_table=tab, log=log, ident=kernel_ids(spec)[i]))
     return kernels
 
 
@@ -574,7 +583,7 @@ def _np_digest(state):
 def expected_log(spec):
     """Global (not per chain) order of life-cycle calls: (what, kernel, nth_epoch)."""
     out = []
-    ids = [f"kernel_{i:02d}" for i in range(len(spec["kernels"]))]
+    ids = kernel_ids(spec)
     warm_done = False
     for ei, (typ, dur, thin) in enumerate(spec["epochs"]):
         if ei == 0:
